@@ -420,7 +420,13 @@ static int print_expr (hawk_t* hawk, hawk_nde_t* nde)
 					HAWK_T('\0'),
 					HAWK_NULL
 				);
+
+				/* a negative number is not a single token. enclose it in
+				 * parentheses so that it stays a single operand when the
+				 * text is parsed again. e.g. (-1) ** x is not -1 ** x */
+				if (buf[0] == HAWK_T('-')) PUT_SRCSTR (hawk, HAWK_T("("));
 				PUT_SRCSTR (hawk, buf);
+				if (buf[0] == HAWK_T('-')) PUT_SRCSTR (hawk, HAWK_T(")"));
 			}
 			break;
 		}
@@ -441,7 +447,9 @@ static int print_expr (hawk_t* hawk, hawk_nde_t* nde)
 			#else
 				hawk_fmttooocstr (hawk, buf, HAWK_COUNTOF(buf), HAWK_T("%zf"), ((hawk_nde_flt_t*)nde)->val);
 			#endif
+				if (buf[0] == HAWK_T('-')) PUT_SRCSTR (hawk, HAWK_T("("));
 				PUT_SRCSTR (hawk, buf);
+				if (buf[0] == HAWK_T('-')) PUT_SRCSTR (hawk, HAWK_T(")"));
 			}
 			break;
 		}
